@@ -61,6 +61,19 @@ var c20Pairs = []lintPair{
 	{"e_subject_surname_max_length", "w_subject_surname_recommended_max_length", relImplies, "any", 10},
 }
 
+// c20Ran: did the framework run this lint's rule body on o? (in the scope of its source, applicable, inside the window)
+func c20Ran(o *mon.Obj, name string) bool {
+	li, ok := InvBy[name]
+	if !ok || o.Cert == nil {
+		return false
+	}
+	if f := factsFromParsed(o.Cert); !f.inScope(li.Meta.Source) {
+		return false
+	}
+	d := mon.RunDirect(li, o, lint.NewEmptyConfig())
+	return d.Panic == nil && d.CfgErr == nil && d.Applies && d.InWindow
+}
+
 func isFinding(st lint.LintStatus) bool {
 	return st == lint.Notice || st == lint.Warn || st == lint.Error
 }
@@ -82,10 +95,22 @@ func c20Judge(c *mon.Ctx, o *mon.Obj, groups map[string]bool, how string) {
 			continue
 		}
 		judged := func(s lint.LintStatus) bool { return s != lint.NA && s != lint.NE }
+		key := p.a + "/" + p.b
 		if !judged(ra.Status) || !judged(rb.Status) {
+			// One member answers "not applicable" where the other judges. That is no contradiction when the first did
+			// not RUN (out of its document's scope, rejected by its own applicability test, outside its window). But
+			// when both rule bodies ran on the same content and only one of them backs out with NA, the twins did not
+			// "reach the same conclusion": decided with the reference life-cycle (scope from the parsed fields, a
+			// fresh instance's CheckApplies, the registered window), for the same-status pairs only.
+			if p.rel != relEqual || ra.Status == lint.NE || rb.Status == lint.NE || ra.Status == rb.Status {
+				continue
+			}
+			if c20Ran(o, p.a) && c20Ran(o, p.b) {
+				c.R.Count("both_ran_one_na:"+key, 1)
+				c.V("contradiction|"+key, fmt.Sprintf("%s = %s but %s = %s although both rule bodies ran on the same content (%s)", p.a, ra.Status, p.b, rb.Status, how), p.a, inputs(o), map[string]any{"how": how})
+			}
 			continue
 		}
-		key := p.a + "/" + p.b
 		c.R.Count("both_judged:"+key, 1)
 		c.R.Distinct("pair_outcomes:"+key, ra.Status.String()+"/"+rb.Status.String())
 		bad := false
